@@ -123,7 +123,7 @@ def build_extractor_config(flavour, cfg, files, units):
 MOD_PRELUDE = ('#[allow(unused_imports)] use vstd::prelude::*;\n'
                '#[allow(unused_imports)] use crate::spec::*;\n'
                '#[allow(unused_imports)] use crate::shims::World;\n'
-               'broadcast use crate::spec::group_spec_axioms;\n')
+               'broadcast use {crate::spec::group_spec_axioms, crate::shims::ssri::group_ssri_axioms};\n')
 
 
 def assemble(flavour, cfg, files, active_units, ext_out):
